@@ -684,7 +684,28 @@ func c07_2(c *core.Ctx, p *core.Prog) {
 							}
 							return true
 						}
-						bad, _ := core.PathQuery{Fn: h, Avoid: isSt, ExitFilter: nilRet, ExitReturnOnly: true}.Exists()
+						// inside the helper, the edge on which the field was found non-nil needs no store (`if sc.r != nil { return nil }`)
+						known := map[core.Edge]bool{}
+						for _, hb := range h.Blocks {
+							iff := core.IfOf(hb)
+							if iff == nil {
+								continue
+							}
+							cmp, ok := iff.Cond.(*ssa.BinOp)
+							if !ok || !core.IsNilConst(cmp.Y) {
+								continue
+							}
+							f2 := core.LoadedField(cmp.X)
+							if f2 == nil || core.FieldVar(f2) != nf.field {
+								continue
+							}
+							if cmp.Op == token.NEQ {
+								known[core.Edge{From: hb, To: hb.Succs[0]}] = true
+							} else if cmp.Op == token.EQL {
+								known[core.Edge{From: hb, To: hb.Succs[1]}] = true
+							}
+						}
+						bad, _ := core.PathQuery{Fn: h, Avoid: isSt, CutEdges: known, ExitFilter: nilRet, ExitReturnOnly: true}.Exists()
 						return !bad
 					}
 					helperCalls := map[ssa.Instruction]bool{}
